@@ -421,7 +421,9 @@ func (h *Hist) ConvW(i, opt int, o *hx.Out) {
 	last := len(h.Steps) - 1
 	h.Steps[last] = strings.Replace(h.Steps[last], " W? ", " "+tok+" ", 1)
 	if len(after) > 0 {
-		h.Strct[len(h.Strct)-1] += "w" + strings.Join(after, ",")
+		st := h.Strct[len(h.Strct)-1]
+		cut := strings.Index(st+"!", "!")
+		h.Strct[len(h.Strct)-1] = st[:cut] + "w" + strings.Join(after, ",") + st[cut:]
 	}
 	o.Count("class:conv-with-held-examples-measured")
 	if len(items) > 0 {
